@@ -47,17 +47,22 @@ Protected(pre, post, s, d) ==
 
 SrcIntact(pre, post, s, d) == \A p \in Protected(pre, post, s, d) : Look(post, p) = Look(pre, p)
 
-\* the destination holds exactly the image of the former source subtree
-MovedTo(pre, post, s, d) ==
+\* the destination holds exactly the image of the former source subtree.  cap = the depth up to
+\* which the post-state was observed (a snapshot of a very deep tree is cut; images that would
+\* lie below the cut cannot be seen and are not demanded; NoCap = the whole tree was observed).
+NoCap == 1000000
+MovedTo(pre, post, s, d, cap) ==
     /\ ~IsPrefix(s, d)
     /\ s # <<>>
-    /\ \A q \in Sub(pre, s) : Look(post, d \o Suffix(q, s)) = pre[q]
+    /\ \A q \in Sub(pre, s) : Len(d) + Len(q) - Len(s) <= cap => Look(post, d \o Suffix(q, s)) = pre[q]
     /\ \A r \in Sub(post, d) : \E q \in Sub(pre, s) : r = d \o Suffix(q, s)
 
 CopyOK(pre, post, s, d) == Exists(pre, s) => SrcIntact(pre, post, s, d)
-MoveOK(pre, post, s, d) == Exists(pre, s) => (SrcIntact(pre, post, s, d) \/ MovedTo(pre, post, s, d))
+MoveOK(pre, post, s, d, cap) ==
+    Exists(pre, s) => (SrcIntact(pre, post, s, d) \/ MovedTo(pre, post, s, d, cap))
 
-ReqOK(m, pre, post, s, d) == IF m = "COPY" THEN CopyOK(pre, post, s, d) ELSE MoveOK(pre, post, s, d)
+ReqOK(m, pre, post, s, d, cap) ==
+    IF m = "COPY" THEN CopyOK(pre, post, s, d) ELSE MoveOK(pre, post, s, d, cap)
 
 \* classification of a request for reports (how the destination relates to the source)
 Relation(s, d) ==
